@@ -352,6 +352,7 @@ class Ctx:
         prog = self.path("progress-%s" % hashlib.md5((pkg + run + str(time.time())).encode()).hexdigest()[:8])
         env = dict(env)
         env["VERIF_PROGRESS"] = prog
+        env["VERIF_STALL"] = prog + ".stall"
         crashes = []
         total_cases = 0
         rep = {}
@@ -369,6 +370,32 @@ class Ctx:
                 case = int(open(prog).read().strip())
             except (OSError, ValueError):
                 pass
+            stallp = env.get("VERIF_STALL")
+            if rep["_exit"] == 97 and case is not None:
+                # the watchdog: the system under test never became quiescent (a lock held across a schedule point, a spin)
+                dump = ""
+                try:
+                    dump = open(stallp).read()
+                except OSError:
+                    pass
+                fn = "?"
+                for g in dump.split("\n\n"):
+                    if "sync.(*Mutex).Lock" in g or "sync.(*RWMutex)" in g or "[running" in g.split("\n")[0] or "[runnable" in g.split("\n")[0]:
+                        fm = re.search(r"^github\.com/rminnich/go9p\.([^\s(]*(?:\([^)]*\))?[^\s(]*)\(", g, re.M)
+                        if fm:
+                            fn = fm.group(1)
+                            break
+                crashes.append({"case": case, "panic": "stall: not quiescent (goroutine waiting for a lock or spinning in %s)" % fn, "func": fn, "kind": "stall"})
+                self.log("system under test stalled in case %s (%s)" % (case, fn))
+                if ext_out:
+                    with open(ext_out, "a") as f:
+                        f.write(json.dumps({"ev": "reset", "case": case}) + "\n")
+                        f.write(json.dumps({"ev": "stall", "what": "not quiescent: lock wait or spin in %s" % fn}) + "\n")
+                start = case + 1
+                if sum(1 for c in crashes if c.get("kind") == "stall") >= 3:
+                    self.log("three stalls in this engine: not restarting it again")
+                    break
+                continue
             m = re.search(r"^(panic: .*|fatal error: .*)$", out, re.M)
             if not m or case is None:
                 self.log("engine output tail:\n" + "\n".join(out.splitlines()[-40:]))
